@@ -4,7 +4,7 @@ import json,sys,subprocess
 sid,what,needs,det=sys.argv[1:5]
 head=subprocess.run(["git","-C","/repo","rev-parse","--short","HEAD"],capture_output=True,text=True).stdout.strip()
 m=dict(id=sid,property=sid.split("-")[0],round=int(sys.argv[5]) if len(sys.argv)>5 else 4,
- source="independent sub-agent (" + ("fifth" if (len(sys.argv)>5 and sys.argv[5]=="5") else "fourth") + " round), own scratch worktree of /repo, given only the property text",
+ source="independent sub-agent (" + {"5":"fifth","6":"sixth"}.get(sys.argv[5] if len(sys.argv)>5 else "4","fourth") + " round), own scratch worktree of /repo, given only the property text",
  what=what,needs=needs,
  confirmed=f"patch applies on /repo HEAD ({head}); baseline 386/386 with the patch; the demo fails with the patch and passes without (tools/r4.sh)",
  detected_by=det)
